@@ -172,6 +172,50 @@ fn main() {
                 None => println!("cursor=open-failed"),
             }
         }
+        // table_seek_corrupt bad_block targetU:seq shape uk:seq:op:vv ... : one byte of data block `bad_block` is flipped on disk
+        "table_seek_corrupt" => {
+            let bad = num(a[1]) as usize;
+            let t = key(a[2]);
+            let o = match build_table(a[3], &a[4..]) {
+                Some(o) => o,
+                None => {
+                    println!("result=build-failed");
+                    return;
+                }
+            };
+            let handles = v::table_block_handles(&o).expect("handles");
+            println!("blocks={}", handles.len());
+            let path = std::path::PathBuf::from(o.db_path()).join("data").join("1.rdb");
+            let fsys = o.filesystem_provider();
+            let paths = fsys.list_dir(std::path::Path::new(o.db_path())).unwrap_or_default();
+            let _ = path;
+            // locate the table file
+            let mut tpath = None;
+            for p in fsys.list_dir(&std::path::PathBuf::from(o.db_path()).join("data")).unwrap_or(paths) {
+                if p.to_string_lossy().ends_with(".rdb") {
+                    tpath = Some(p);
+                }
+            }
+            let tpath = tpath.expect("table file");
+            let f = fsys.open_file(&tpath).unwrap();
+            let len = f.len().unwrap() as usize;
+            let mut bytes = vec![0u8; len];
+            f.read_from(&mut bytes, 0).unwrap();
+            let (off, size) = handles[bad];
+            bytes[(off + size / 2) as usize] ^= 0x40;
+            {
+                let mut w = fsys.create_file(&tpath, false).unwrap();
+                w.append(&bytes).unwrap();
+            }
+            match v::table_iter_seek_twice(&o, (&t.0, t.1)) {
+                Some((e1, e2, cur)) => {
+                    println!("first_seek={}", if e1 { "err" } else { "ok" });
+                    println!("second_seek={}", if e2 { "err" } else { "ok" });
+                    println!("cursor={}", cur.map(|(k, s)| format!("{}:{}", tohex(&k), s)).unwrap_or("none".to_string()));
+                }
+                None => println!("result=open-failed"),
+            }
+        }
         // table_get targetU:seq shape(c,c,..) uk:seq:op:vv ...   (entries in sorted order; blocks per shape)
         "table_get" => {
             let t = key(a[1]);
